@@ -1,0 +1,36 @@
+//go:build verif
+// +build verif
+
+package rpc
+
+import (
+	"context"
+
+	"github.com/logrange/logrange/api"
+	"github.com/logrange/range/pkg/utils/bytes"
+	"github.com/logrange/range/pkg/utils/encoding/xbinary"
+)
+
+// verifC18FakeRpc is an rrpc.Client whose Call answers with a prepared response body (verification harness, tag verif).
+type verifC18FakeRpc struct{ resp []byte }
+
+func (f *verifC18FakeRpc) Close() error       { return nil }
+func (f *verifC18FakeRpc) Collect(buf []byte) {}
+func (f *verifC18FakeRpc) Call(ctx context.Context, funcId int, msg xbinary.Writable) ([]byte, error, error) {
+	return append([]byte{}, f.resp...), nil, nil
+}
+
+// VerifC18EncodeQueryResult is the server's encoding of a query answer.
+func VerifC18EncodeQueryResult(qr *api.QueryResult) []byte {
+	var w bytes.Writer
+	w.Init(getQueryResultSize(qr), nil)
+	writeQueryResult(qr, &xbinary.ObjectsWriter{Writer: &w})
+	return append([]byte{}, w.Buf()...)
+}
+
+// VerifC18ClientQueryOnBody runs the real clntQuerier.Query over a transport that delivers the given response body
+// (no transport error, no operation error).
+func VerifC18ClientQueryOnBody(body []byte, res *api.QueryResult) error {
+	cq := &clntQuerier{rc: &verifC18FakeRpc{resp: body}}
+	return cq.Query(context.Background(), &api.QueryRequest{Query: "select limit 10", Limit: 10}, res)
+}
